@@ -19,7 +19,7 @@ TRUSTED = ["clang 14 parser/Sema/CFG", "/verif extractor, write-set and exceptio
 ASSUMPTIONS = ["the write-set is a may-analysis (path-insensitive): a field it does not contain is never written"]
 DECLINED = ["classification of exec tokens (number / hex / opcode)", "equality of the resulting state with a reference interpreter"]
 
-BANNED = {"pc", "script", "pend", "curr_op_seq", "done", "successor_script", "is_p2sh", "p2shstack", "tce", "scriptIn", "operational"}
+BANNED = {"pc", "script", "pend", "curr_op_seq", "done", "successor_script", "is_p2sh", "p2shstack", "tce", "scriptIn", "operational", "opcode_pos"}
 
 
 def run(ctx, anchors=None):
@@ -47,6 +47,32 @@ def run(ctx, anchors=None):
         bad = fld in BANNED or fld.endswith("_history")
         ctx.inst(not bad, "R16.1", "exec-writes=" + fld, wit[1], "exec may write env.%s (allowed)" % fld,
                  "exec can write env.%s (at %s): the script position / remaining script / history is no longer untouched" % (fld, wit[1]))
+    # exec must change the session only THROUGH the operation step: whatever eval / the exec command write themselves
+    # (outside the step call) is a difference from "the operations were the next operations of the script"
+    calls_ = [n for n in ev.nodes() if astq.is_call(n) and n.get("cid") == opstep.id]
+    step_eff = set()
+    for c_ in calls_:
+        for p_ in prog.call_effects(ev, c_):
+            fl = [x for x in p_[1:] if x not in ("*", "[]")]
+            if len(fl) >= 2 and fl[0] == "env":
+                step_eff.add(fl[1])
+    extra = sorted(set(fields) - step_eff)
+    ctx.site()
+    ctx.inst(not extra, "R16.1", "exec-writes-only-through-the-step", ev.loc(),
+             "every session field exec can write is written by the operation step itself",
+             "Instance::eval writes %s outside the operation step (at %s): exec changes state that the same operations inside the script would not change"
+             % (", ".join("env." + x for x in extra), "; ".join(fields[x][1] for x in extra)))
+    own = []
+    for (n_, kind, ps, detail) in astq.write_events(fexec, lambda cid: (prog.resolve(cid) or None)):
+        if kind == "call":
+            continue
+        for p_ in ps:
+            t = astq.path_str(p_)
+            if "env" in t or "instance" in t:
+                own.append((n_, t))
+    ctx.inst(not own, "R16.1", "exec-command-does-not-touch-session", fexec.loc(own[0][0]) if own else fexec.loc(),
+             "the exec command handler itself writes no session state",
+             "fn_exec writes %s itself (at %s): after a throwing operation the state differs from what the script would have left" % (own[0][1] if own else "", fexec.loc(own[0][0]) if own else ""))
     # ---- R16.2
     exc = ExcEngine(prog)
     hard = c15.hard_escapes(exc, fexec)
@@ -115,6 +141,8 @@ def run(ctx, anchors=None):
 
 
 MUTANTS = [
+    dict(name="exec-advances-opcode_pos", file="instance.cpp", find="            fprintf(stderr, \"Error: %s\\n\", ScriptErrorString(*env->serror).c_str());\n            return false;\n        }\n", replace="            fprintf(stderr, \"Error: %s\\n\", ScriptErrorString(*env->serror).c_str());\n            return false;\n        }\n        ++env->opcode_pos;\n", expect=["R16.1:exec-writes-only-through-the-step", "R16.1:exec-writes=opcode_pos"]),
+    dict(name="exec-restores-stack-on-exception", file="functions.cpp", find="    } catch (std::exception const& ex) {\n        fprintf(stderr, \"exception: %s\\n\", ex.what());\n    }\n    print_dualstack();", replace="    } catch (std::exception const& ex) {\n        fprintf(stderr, \"exception: %s\\n\", ex.what());\n        env->stack.clear();\n    }\n    print_dualstack();", expect=["R16.1:exec-command-does-not-touch-session"]),
     dict(name="exec-moves-session-pc", file="instance.cpp", find="    CScript::const_iterator it = script.begin();\n    while (it != script.end()) {\n        if (!StepScript(*env, it, &script)) {",
          replace="    CScript::const_iterator it = script.begin();\n    while (it != script.end()) {\n        env->curr_op_seq++;\n        if (!StepScript(*env, it, &script)) {", expect=["R16.1:exec-writes=curr_op_seq"]),
     dict(name="exec-uses-session-pc", file="instance.cpp", find="        if (!StepScript(*env, it, &script)) {", replace="        if (!StepScript(*env, env->pc, &script)) {", expect=["R16.3:local-iterator", "R16.1:exec-writes=pc"]),
